@@ -6,7 +6,7 @@ from vp import core, gen
 
 PROP_ID = 'C17'
 LEVEL = 'exploration'
-BUDGET = {'quick': 4000, 'thorough': 100000}
+BUDGET = {'quick': 12000, 'thorough': 100000}
 RULE = ('Hypothesis draws a frame geometry (all construction routes, both orientations, explicit start time '
         'and source name), identifiable content data[i,j]=1000 i + j + 0.25 (+seeded noise), and one derived '
         'operation: slice [l,r) with arbitrary 0<=l<r<=fchans; de-drift with a rate given in channels per step '
